@@ -635,6 +635,16 @@ type FuncSpec struct {
 	Line     int
 	Fresh    bool // trusted: result is a freshly allocated object
 	Tags     []string
+	Asserts  []AssertSpec
+}
+
+// AssertSpec is a proof hint attached to a program point: "assert after Callee#k: expr" / "assert before Callee#k: expr".
+// The expression is proved at that point (an obligation like any other) and then available to what follows.
+type AssertSpec struct {
+	After  bool
+	Callee string
+	Nth    int
+	C      Clause
 }
 
 type PureDecl struct {
@@ -693,7 +703,7 @@ var clauseKeywords = map[string]bool{
 	"sort": true, "ghost": true, "pure": true, "pred": true, "axiom": true, "func": true, "trusted": true,
 	"interface": true, "functype": true, "requires": true, "ensures": true, "modifies": true, "loop": true,
 	"invariant": true, "decreases": true, "unfold": true, "inherits": true, "bv": true, "inline": true,
-	"smt": true, "guarded": true, "assumes": true, "raises": true, "maypanic": true, "lemma": true, "fresh": true, "end": true,
+	"smt": true, "guarded": true, "assumes": true, "assert": true, "raises": true, "maypanic": true, "lemma": true, "fresh": true, "end": true,
 }
 
 // LoadSpecFile reads //@ lines from a file. pkgPath is the package the file belongs to ("" for trusted specs).
@@ -881,6 +891,33 @@ func (ss *SpecSet) LoadSpecFile(path, pkgPath string) error {
 					}
 					curLoop.Invs = append(curLoop.Invs, c)
 				}
+			case "assert":
+				t := strings.TrimSpace(rc.text)
+				as := AssertSpec{Nth: 1}
+				switch {
+				case strings.HasPrefix(t, "after "):
+					as.After = true
+					t = t[6:]
+				case strings.HasPrefix(t, "before "):
+					t = t[7:]
+				default:
+					return fail(rc.line, "assert after|before Callee[#k]: expr")
+				}
+				k := strings.Index(t, ":")
+				if k < 0 {
+					return fail(rc.line, "assert after|before Callee[#k]: expr")
+				}
+				as.Callee = strings.TrimSpace(t[:k])
+				if h := strings.Index(as.Callee, "#"); h >= 0 {
+					fmt.Sscanf(as.Callee[h+1:], "%d", &as.Nth)
+					as.Callee = as.Callee[:h]
+				}
+				c, err := parseClause(t[k+1:], rc.line)
+				if err != nil {
+					return err
+				}
+				as.C = c
+				cur.Asserts = append(cur.Asserts, as)
 			case "decreases":
 				if curLoop == nil {
 					return fail(rc.line, "decreases outside loop")
